@@ -205,15 +205,36 @@ def threaded_successors(fn):
         term = real[-1]
         if term.op != 'br' or len(term.extra['targets']) != 2 or not term.ops or term.ops[0][0] != 'reg':
             continue
-        # the block must consist of phis only (no side effects are skipped by threading an edge past it)
-        if any(i.op != 'phi' for i in real[:-1]):
+        # the block must consist of phis and pure casts/tests only (no side effect is skipped by threading an edge
+        # past it): `bool b = x || y; if (b)` lowers to phi; zext; trunc; br
+        if any(i.op not in ('phi', 'zext', 'sext', 'trunc', 'icmp') for i in real[:-1]):
             continue
-        phi = next((i for i in real[:-1] if i.res == term.ops[0][1]), None)
+        invert = False
+        reg = term.ops[0][1]
+        phi = None
+        defs = {i.res: i for i in real[:-1]}
+        guard = 0
+        while reg in defs and guard < 8:
+            guard += 1
+            d = defs[reg]
+            if d.op == 'phi':
+                phi = d
+                break
+            if d.op in ('zext', 'sext', 'trunc') and d.ops[0][0] == 'reg':
+                reg = d.ops[0][1]
+                continue
+            if d.op == 'icmp' and d.extra['pred'] in ('ne', 'eq') and d.ops[1] in (('int', 0), ('zero',)) and d.ops[0][0] == 'reg':
+                if d.extra['pred'] == 'eq':
+                    invert = not invert
+                reg = d.ops[0][1]
+                continue
+            break
         if phi is None:
             continue
         for v, pred in phi.extra['incoming']:
             if v[0] == 'int':
-                tgt = term.extra['targets'][0] if v[1] else term.extra['targets'][1]
+                truth = bool(v[1]) != invert
+                tgt = term.extra['targets'][0] if truth else term.extra['targets'][1]
                 redirect[(pred, b.name)] = tgt
     sm = {}
     for b in fn.blocks.values():
